@@ -5,6 +5,7 @@ lemmas re-proved.  Tie X: the Go functions and the extracted model (whose
 sat_add is literally min(a+b, cap)) are run on boundary-structured vectors
 and seeded random operands; any disagreement is a concrete failing input.
 """
+import json
 import random
 import vlib
 
@@ -134,6 +135,38 @@ def bombs(ctx, res):
             for style in ("gitlike", "referrer_first"):
                 SP.closed_form_case(eng, res, sc, sc.enum_random([len(sc.objects) - 1], rng0, style=style), exp,
                                     "bomb of fan-out %d x %d (%s)" % (breadth, breadth, style))
+        # time proportional to the number of DISTINCT objects: the same two-level bomb (one sub-tree named N times, 3 trees and a
+        # blob in all) at N = 75 000 and at N = 300 000 through real git; four times the entries may cost ten times the time
+        # plus five seconds, not more (a quadratic step in the per-tree bookkeeping costs a hundred times more)
+        import os as _os, shutil as _sh, subprocess as _sp
+        tms = {}
+        for nfan in (75000, 300000):
+            bs = S.Scenario()
+            bb = bs.add({"kind": "blob", "data": b"x"})
+            bsub = bs.add({"kind": "tree", "entries": [(0o100644, b"f", bb)]})
+            bwide = bs.add({"kind": "tree", "entries": [(0o40000, b"d%06d" % i, bsub) for i in range(nfan)]})
+            bc = bs.add({"kind": "commit", "tree": bs.add({"kind": "tree", "entries": [(0o40000, b"w", bwide)]}), "parents": []})
+            bs.refs.append((b"refs/heads/main", bc))
+            bs.compute()
+            bd = _os.path.join(eng.scratch, "fan%d" % nfan)
+            bs.materialise(bd)
+            t0 = time.time()
+            try:
+                pr = _sp.run([ctx["bins"]["sizer"], "--json", "--no-progress"], cwd=bd, env=S.clean_env(), stdout=_sp.PIPE, stderr=_sp.PIPE,
+                             timeout=10 * tms.get(75000, 30) + 5 if nfan != 75000 else 300)
+                rc_, out_ = pr.returncode, pr.stdout
+            except _sp.TimeoutExpired:
+                rc_, out_ = "timeout", b""
+            tms[nfan] = time.time() - t0
+            res.case(("linear-time", nfan), True)
+            inp = {"scenario": "one sub-tree named %d times (3 trees, 1 blob, 1 commit)" % nfan, "seconds": {str(k): round(v, 2) for k, v in tms.items()}}
+            if rc_ == "timeout":
+                res.violations.append(vlib.Violation("the scan does not take time proportional to the number of distinct objects", inp,
+                                                     expected="at most 10 x the time for 75000 entries + 5 s", observed="still running"))
+            elif rc_ != 0 or json.loads(out_)["max_expanded_blob_count"] != nfan:
+                res.violations.append(vlib.Violation("wide two-level bomb: wrong result", inp, observed=str(rc_)))
+            _sh.rmtree(bd, ignore_errors=True)
+        res.coverage_extra["linear_time_seconds"] = {str(k): round(v, 2) for k, v in tms.items()}
         SP.wide_cases(eng, res, S.HIST_KEYS, "saturation", True, rng0)
         # one sub-tree named k times with totals at and next to floor(capacity / k): products that land exactly on, just below
         # and just above 2^64-1 (bytes) and 2^32-1 (files), for k = 2..10 — whether k additions or one multiplication are used
